@@ -17,6 +17,7 @@ from __future__ import annotations
 import json
 import os
 import pickle
+import re
 import shutil
 import signal
 import subprocess
@@ -29,14 +30,66 @@ from tools.corr.C16_harness import JUNK, hash_mode
 from tools.lib import common
 
 
-def _check_call(fn, expr, expected, d) -> dict | None:
+CALL_CAP_S = 60
+
+
+class Stuck(BaseException):
+    """A single call exceeded its wall-clock cap (BaseException: `except Exception` cannot eat it)."""
+
+
+_STUCK = {"n": 0}
+
+
+class _cap:
+    """Wall-clock cap for one call (main thread only; a no-op elsewhere)."""
+
+    def __init__(self, seconds: int = CALL_CAP_S):
+        self.s = seconds
+        self.on = False
+
+    def __enter__(self):
+        import threading
+
+        if threading.current_thread() is threading.main_thread() and hasattr(signal, "setitimer"):
+            def handler(signum, frame):
+                raise Stuck
+
+            self.old = signal.signal(signal.SIGALRM, handler)
+            signal.setitimer(signal.ITIMER_REAL, self.s)
+            self.on = True
+        return self
+
+    def __exit__(self, *a):
+        if self.on:
+            signal.setitimer(signal.ITIMER_REAL, 0)
+            signal.signal(signal.SIGALRM, self.old)
+        return False
+
+
+def _check_call(fn, expr, expected, d, use_default_dir: bool = False) -> dict | None:
+    """The property on one call: no exception, result structurally identical to expr.doit() AND
+    behaving like it, the argument left untouched, within the wall-clock cap."""
+    if _STUCK["n"] >= 2:  # never burn the budget on a function that hangs: remaining cases are skipped
+        return {"observed": "skipped"}
     try:
-        r = fn(expr, d)
+        snapshot = pickle.dumps(expr)
+    except Exception:  # noqa: BLE001  (expression that cannot be pickled: observation cases only)
+        snapshot = None
+    h0 = hash(expr)
+    try:
+        with _cap():
+            r = fn(expr) if use_default_dir else fn(expr, d)
+    except Stuck:
+        _STUCK["n"] += 1
+        return {"observed": "stuck", "error": f"the call did not return within {CALL_CAP_S} s"}
     except Exception as ex:  # noqa: BLE001
         return {"observed": "raised", "error": f"{type(ex).__name__}: {ex}"[:300]}
-    if not X.deep_equal(r, expected):
-        return {"observed": "wrong value", "got": str(r)[:300], "got_type": type(r).__name__,
+    why = X.behaves_same(r, expected)
+    if why is not None:
+        return {"observed": "wrong value", "difference": why, "got": str(r)[:300], "got_type": type(r).__name__,
                 "expected": str(expected)[:300]}
+    if hash(expr) != h0 or (snapshot is not None and not X.deep_equal(pickle.loads(snapshot), expr)):
+        return {"observed": "argument modified", "error": "the expression passed in is no longer what it was before the call"}
     return None
 
 
@@ -74,6 +127,8 @@ def sequential(chk, rng, n_prefix: int | None, families: dict, modes=("sha", "se
         return d
 
     def report(what, fam, idx, mode, content, res):
+        if res.get("observed") == "skipped":
+            return
         fails.append({"what": what, "family": fam, "expr_index": idx, "mode": mode, "file": content, **res})
 
     try:
@@ -111,8 +166,11 @@ def sequential(chk, rng, n_prefix: int | None, families: dict, modes=("sha", "se
 
                     # 2. byte prefixes of the real record
                     if mode == modes[0] or n_prefix is None:
-                        ks = range(len(rec)) if n_prefix is None else sorted(
-                            {0, 1, 2, len(rec) - 1, len(rec) - 2, *[rng.randrange(len(rec)) for _ in range(n_prefix)]})
+                        if n_prefix is None and len(rec) <= 1500 and (mode == modes[0] or len(rec) <= 500):
+                            ks = range(len(rec))
+                        else:
+                            ks = sorted({0, 1, 2, len(rec) - 1, len(rec) - 2,
+                                         *[rng.randrange(len(rec)) for _ in range(n_prefix or 150)]})
                         for k in ks:
                             with_file(rec[:k], "truncated record under the cache file name", ("prefix", fam, k),
                                       f"first {k} of {len(rec)} bytes of pickle.dumps((expr, expr.doit()))")
@@ -184,9 +242,155 @@ def outside_model_observations() -> list[dict]:
                 mk(d)
                 res = _check_call(fn, e, e.doit(), d)
                 obs.append({"directory_entry": label, "result": "ok" if res is None else res})
+            # not about the directory's contents at all: an expression pickle cannot serialise
+            d = Path(tempfile.mkdtemp(prefix="d", dir=root))
+            u = X.unpicklable_expression()
+            res = _check_call(fn, u, u.doit(), d)
+            left = sorted(x.name[-12:] for x in d.iterdir())
+            after = _check_call(fn, e, e.doit(), d)
+            obs.append({"directory_entry": "none (the EXPRESSION cannot be pickled: class defined inside a function)",
+                        "result": "ok" if res is None else res, "left_in_directory": left,
+                        "next_call_of_a_normal_expression": "ok" if after is None else after})
+            # directory without write permission / a file where the directory should be
+            d = Path(tempfile.mkdtemp(prefix="d", dir=root))
+            os.chmod(d, 0o555)
+            res = _check_call(fn, e, e.doit(), d)
+            os.chmod(d, 0o755)
+            obs.append({"directory_entry": "none (cache directory mode 0555)" + (" — running as root, permissions are not enforced" if os.geteuid() == 0 else ""),
+                        "result": "ok" if res is None else res})
+            f = Path(tempfile.mkdtemp(prefix="d", dir=root)) / "a-file"
+            f.write_text("x")
+            res = _check_call(fn, e, e.doit(), f)
+            obs.append({"directory_entry": "none (cache_directory is a regular file)", "result": "ok" if res is None else res})
     finally:
         shutil.rmtree(root, ignore_errors=True)
     return obs
+
+
+def one_process_histories(chk, rng, families: dict, modes=("sha", "seed0")) -> list[dict]:
+    """Rule 'histories, not single calls': an in-memory layer or module-level state in front of the
+    disk cache would show here.  In ONE process: repeated calls after a confirmed disk hit, string-equal
+    expressions alternating, several directories, the file deleted / replaced behind the function's back."""
+    from ampform.sympy import perform_cached_doit as fn
+    from ampform.sympy._cache import get_readable_hash
+
+    fails: list[dict] = []
+    stats = {"sequences": 0, "calls": 0, "confirmed_disk_hits": 0, "directories": 0}
+    root = Path(tempfile.mkdtemp(prefix="c16mem_"))
+    try:
+        for fam, exprs in families.items():
+            doits = [e.doit() for e in exprs]
+            n = len(exprs)
+            for mode in modes:
+                with hash_mode(mode):
+                    names = [get_readable_hash(e) for e in exprs]
+                    dirs = [Path(tempfile.mkdtemp(prefix="d", dir=root)) for _ in range(3)]
+                    stats["directories"] += 3
+                    trace: list[str] = []
+
+                    def call(i, d, note=""):
+                        res = _check_call(fn, exprs[i], doits[i], dirs[d])
+                        stats["calls"] += 1
+                        trace.append(f"expr{i}@dir{d}{note}")
+                        chk.count(("one-process", fam, mode, len(trace), i, d))
+                        if res and res.get("observed") != "skipped" and not any(f["family"] == fam and f["mode"] == mode for f in fails):
+                            fails.append({"what": "sequence of calls in ONE process (repeats after a disk hit, string-equal "
+                                          "expressions, several directories, file changed behind the function)",
+                                          "family": fam, "mode": mode, "sequence": list(trace), "failed_call": trace[-1], **res})
+                        return res
+
+                    def stat(i, d):
+                        f = dirs[d] / f"{names[i]}.pkl"
+                        return (f.stat().st_ino, f.stat().st_mtime_ns) if f.exists() else None
+
+                    stats["sequences"] += 1
+                    j = 1 % n
+                    call(0, 0)                       # miss, writes
+                    before = stat(0, 0)
+                    call(0, 0, " (repeat)")          # disk hit expected
+                    if before is not None and stat(0, 0) == before:
+                        stats["confirmed_disk_hits"] += 1
+                    call(0, 0, " (repeat after the hit)")
+                    call(j, 0)                       # string-equal other expression, same directory
+                    call(j, 0, " (repeat)")
+                    call(0, 0)
+                    call(j, 1, " (fresh empty directory)")   # a layer keyed by name ignores the directory
+                    call(0, 1)
+                    call(0, 2, " (third directory)")
+                    # the file disappears / is replaced behind the function's back
+                    (dirs[2] / f"{names[0]}.pkl").unlink(missing_ok=True)
+                    call(j, 2, " (after the cache file was deleted)")
+                    (dirs[0] / f"{names[0]}.pkl").write_bytes(pickle.dumps((exprs[j], doits[j])))
+                    call(0, 0, " (after the file was replaced by the other expression's record)")
+                    (dirs[0] / f"{names[0]}.pkl").write_bytes(b"garbage")
+                    call(j, 0, " (after the file was replaced by garbage)")
+                    for _ in range(4):
+                        call(rng.randrange(n), rng.randrange(3), " (random)")
+    finally:
+        shutil.rmtree(root, ignore_errors=True)
+    chk.info("one_process_history_stats", stats)
+    return fails
+
+
+def default_directory(chk) -> tuple[list[dict], dict]:
+    """`cache_directory=None`: resolution through get_system_cache_directory with XDG_CACHE_HOME / HOME
+    pointing into scratch space (the real home is never touched: if the resolved path is not inside the
+    scratch space the call is skipped and that is recorded)."""
+    from importlib.metadata import version
+
+    from ampform.sympy import perform_cached_doit as fn
+    from ampform.sympy._cache import get_readable_hash, get_system_cache_directory
+
+    fams = X.families()
+    e0, e1 = fams["breakup_assumptions"][:2]
+    r0, r1 = e0.doit(), e1.doit()
+    fails: list[dict] = []
+    info: dict = {"cases": []}
+    root = Path(tempfile.mkdtemp(prefix="c16home_")).resolve()
+    saved = {k: os.environ.get(k) for k in ("XDG_CACHE_HOME", "HOME")}
+    try:
+        for label, env in {
+            "XDG_CACHE_HOME set": {"XDG_CACHE_HOME": str(root / "xdg"), "HOME": str(root / "home1")},
+            "XDG_CACHE_HOME unset, HOME set": {"XDG_CACHE_HOME": None, "HOME": str(root / "home2")},
+            "XDG_CACHE_HOME with spaces and unicode": {"XDG_CACHE_HOME": str(root / "x dg µ"), "HOME": str(root / "home3")},
+        }.items():
+            for k, v in env.items():
+                if v is None:
+                    os.environ.pop(k, None)
+                else:
+                    os.environ[k] = v
+                    Path(v).mkdir(parents=True, exist_ok=True)
+            sysdir = Path(get_system_cache_directory()).resolve()
+            case = {"env": label, "system_cache_directory_inside_scratch": root in sysdir.parents or sysdir == root}
+            info["cases"].append(case)
+            if not case["system_cache_directory_inside_scratch"]:
+                case["skipped"] = f"resolved to {sysdir}, outside the scratch space: not called"
+                continue
+            before = set(root.rglob("*.pkl"))
+            with hash_mode("sha"):
+                expected_dir = sysdir / "ampform" / f"sympy-v{version('sympy')}"
+                # pre-populate the default directory with the OTHER expression's record (same file name)
+                expected_dir.mkdir(parents=True, exist_ok=True)
+                (expected_dir / f"{get_readable_hash(e0)}.pkl").write_bytes(pickle.dumps((e1, r1)))
+                seq = [(e0, r0), (e0, r0), (e1, r1), (e0, r0)]
+                for n, (e, r) in enumerate(seq):
+                    res = _check_call(fn, e, r, None, use_default_dir=(n % 2 == 0))
+                    chk.count(("default-dir", label, n))
+                    if res and res.get("observed") != "skipped":
+                        fails.append({"what": "cache_directory=None (default directory under the system cache directory)",
+                                      "env": label, "call_index": n, **res})
+                        break
+                case["files_in_expected_default_directory"] = len(list(expected_dir.glob("*.pkl")))
+                case["written_elsewhere_in_scratch"] = sorted(
+                    str(p.relative_to(root)) for p in set(root.rglob("*.pkl")) - before if expected_dir not in p.parents)[:5]
+    finally:
+        for k, v in saved.items():
+            if v is None:
+                os.environ.pop(k, None)
+            else:
+                os.environ[k] = v
+        shutil.rmtree(root, ignore_errors=True)
+    return fails, info
 
 
 # --------------------------------------------------------------------------- real processes
@@ -224,6 +428,9 @@ def _collect(p: subprocess.Popen, timeout: float, what: str, fails: list, stats:
             stats["wrong"] += s["wrong"]
             stats["raised"] += s["raised"]
             stats["workers"] += 1
+            stats.setdefault("first_file_name_by_hash_mode", {}).setdefault(s["mode"], set()).add(s["first_name"])
+            stats["workers_using_seeded_names"] = stats.get("workers_using_seeded_names", 0) + (s["seeded_names"] > 0)
+            stats["workers_using_sha_names"] = stats.get("workers_using_sha_names", 0) + (s["sha_names"] > 0)
 
 
 def processes(chk, rng, tier: str) -> list[dict]:
@@ -291,5 +498,8 @@ def processes(chk, rng, tier: str) -> list[dict]:
         chk.count(None, stats["calls"])
     finally:
         shutil.rmtree(root, ignore_errors=True)
+    stats["first_file_name_by_hash_mode"] = {k: sorted(v) for k, v in stats.get("first_file_name_by_hash_mode", {}).items()}
+    stats["distinct_key_functions_observed"] = len({re.match(r"pythonhashseed-\d+", n).group(0) if n.startswith("pythonhashseed-") else "sha256"
+                                                    for v in stats["first_file_name_by_hash_mode"].values() for n in v})
     chk.info("real_process_stats", stats)
     return fails
